@@ -79,27 +79,33 @@ func (s *BarGraph) WriteBar(idx int, key string, vals ...int64) {
 
 	// Compute the updated max
 	redraw := false
-	{
-		var max int64
-		if s.Stacked {
-			max = sumi64(vals...)
-		} else {
-			max = maxi64(vals...)
-		}
-		if max > s.maxLineVal {
-			s.maxLineVal = max
-			redraw = true
-		}
+	if max := s.rowMax(vals); max > s.maxLineVal {
+		s.maxLineVal = max
+		redraw = true
 	}
 
 	// Draw or redraw
 	if redraw {
+		// Saved rows reference live values that may have grown since they were written;
+		// settle the scale before drawing so every row uses the same one
+		for _, row := range s.rows {
+			if max := s.rowMax(row.vals); max > s.maxLineVal {
+				s.maxLineVal = max
+			}
+		}
 		for idx, row := range s.rows {
 			s.writeBar(idx, row.name, row.vals...)
 		}
 	} else {
 		s.writeBar(idx, key, vals...)
 	}
+}
+
+func (s *BarGraph) rowMax(vals []int64) int64 {
+	if s.Stacked {
+		return sumi64(vals...)
+	}
+	return maxi64(vals...)
 }
 
 func maxi64(vals ...int64) (ret int64) {
